@@ -92,7 +92,7 @@ PROPS = {
               "the values returned for particular dictionaries; list-index and prefix-key semantics inside confectioner",
               filters={"R-GA": ["attaches"], "R-KW": [".lift", "a variadic parameter", "built directly"], "R-LM": ["labrea.application", "labrea.arguments", "labrea.option"], "R-CW": ["a hashable key is registered whole", "assigns a fresh table"], "R-MF": ["_DatasetClassMixin.__init__", "members are the Evaluatable"], "R-OF": ["labrea.computation", "labrea.option", "labrea.template", "labrea.dataset", "labrea.logging", "labrea.cache"], "R-HD": ["type-validation"], "R-CC": ["Option(", "Namespace(", "_Auto("], "R-PU": ["labrea.option", "labrea.template"], "R-KC": ["labrea.option.Option:"],
                        "R-IS": ["labrea.option.", "labrea.template."], "R-TK": ["Template.evaluate"]}),
-    "C05": _p(["R-SO", "R-OP", "R-SL", "R-EO", "R-MX", "R-CD", "R-DC", "R-RG", "R-FP", "R-VM", "R-KW", "R-ON", "R-LK", "R-HO", "R-VP", "R-LM", "R-EH", "R-CC"],
+    "C05": _p(["R-SO", "R-OP", "R-SL", "R-EO", "R-MX", "R-CD", "R-DC", "R-RG", "R-FP", "R-VM", "R-KW", "R-ON", "R-LK", "R-HO", "R-VP", "R-LM", "R-EH", "R-CC", "R-CW"],
               "Decides only the selection/order skeleton: switch indexes the table by the dispatch value, default exactly on dispatch "
               "failure or miss, SwitchError without default; case-when returns the result paired with the first condition that holds; "
               "coalesce returns at the first member that validates and evaluates; collections and the Map product iterate in stored "
@@ -100,9 +100,9 @@ PROPS = {
               "to the evaluated parts; the combinator API (call, >>, apply, bind) is not overridden by a concrete class; a dataset nests "
               "default options > pre-set options > cache > calculation, so what the cache keys on is what the body is evaluated under."
               " Only a list of aliases is split into aliases; every reported key value reaches the fingerprint as it is; functions that collect **kwargs keep no keyword of their own; lift() sets apart only *args/**kwargs."
-              " The library's own steps used with >> (F.eq, F.gt … as case-when conditions) compute the documented Python operation; the Logged wrapper returns exactly the wrapped value whichever order it logs in." " Every element of a Map / argument list is evaluated on its own (no result handed out again for an element that merely looks the same); what an expression or effect raises in validate/keys/explain is an EvaluationError, so coalesce and switch step over a part that cannot be used." " Dataset.evaluate/validate do nothing but delegate to the composed expression (a check of the dispatch against the caller's raw options ignores the dataset's own pre-set and default options)." " (Round 9) A combinator rebuilt from itself (CaseWhen.when/otherwise) carries every field over — a default dropped by when() turns 'no case matched' from the default into an error (R-CC).",
+              " The library's own steps used with >> (F.eq, F.gt … as case-when conditions) compute the documented Python operation; the Logged wrapper returns exactly the wrapped value whichever order it logs in." " Every element of a Map / argument list is evaluated on its own (no result handed out again for an element that merely looks the same); what an expression or effect raises in validate/keys/explain is an EvaluationError, so coalesce and switch step over a part that cannot be used." " Dataset.evaluate/validate do nothing but delegate to the composed expression (a check of the dispatch against the caller's raw options ignores the dataset's own pre-set and default options)." " (Round 9) A combinator rebuilt from itself (CaseWhen.when/otherwise) carries every field over — a default dropped by when() turns 'no case matched' from the default into an error (R-CC)." " (Round 10) Switch takes the branch registered under the dispatch value: for an overloaded dataset that is the implementation registered last under the alias (R-CW, merge order of register).",
               "value equality with a reference interpreter for arbitrary expression trees (most of the property)",
-              filters={"R-CC": ["CaseWhen(", "Switch(", "Coalesce(", "Iter(", "Map(", "Pipeline("], "R-EH": [":raises "], "R-VP": ["Logged"], "R-FP": ["every-reported-key-serialised"], "R-RG": ["element-wise"], "R-MX": ["Map._iter", "WithOptions.evaluate"], "R-CD": ["Switch", "Coalesce", "CaseWhen", "user callable"], "R-DC": ["default-options > pre-set options", "delegates to _composed"]}),
+              filters={"R-CW": ["assigns a fresh table"], "R-CC": ["CaseWhen(", "Switch(", "Coalesce(", "Iter(", "Map(", "Pipeline("], "R-EH": [":raises "], "R-VP": ["Logged"], "R-FP": ["every-reported-key-serialised"], "R-RG": ["element-wise"], "R-MX": ["Map._iter", "WithOptions.evaluate"], "R-CD": ["Switch", "Coalesce", "CaseWhen", "user callable"], "R-DC": ["default-options > pre-set options", "delegates to _composed"]}),
     "C06": _p(["R-CL", "R-SL", "R-AB", "R-EO", "R-EV", "R-SO", "R-PU", "R-AI", "R-RQ", "R-OP"],
               "Decides: no evaluation op is reachable from construction/decoration/registration code (whole-program reachability "
               "over resolved callees); unselected switch/case/coalesce branches never receive an op; the default is touched only when "
@@ -131,24 +131,24 @@ PROPS = {
               " A WithOptions rebuilt from another carries its force flag; wrapping copies no __dict__; values and options are not changed in place, also not through shallow copies." " A dataset and its with_options / with_default_options variants share one cache, told apart by the fingerprint: a list-valued option keeps its order there (lists that differ in order are different overlays)." " What a dataset-class instance records for repr/equality is read from the options, never written back into a section it shares with the caller's or the pre-set dictionary.",
               "merge semantics of confectioner.mix itself; F13",
               filters={"R-MF": ["_DatasetClassMixin"], "R-FP": ["a sequence value keeps its order"], "R-CC": ["Dataset(", "WithOptions("], "R-OA": ["WithOptions", "Dataset", "Map"], "R-PO": ["WithOptions"]}),
-    "C09": _p(["R-TK", "R-KC", "R-RK", "R-CH", "R-GS", "R-KW", "R-MX", "R-ID", "R-L1", "R-RG"],
+    "C09": _p(["R-TK", "R-KC", "R-RK", "R-CH", "R-GS", "R-KW", "R-MX", "R-ID", "R-L1", "R-RG", "R-OA"],
               "Decides: Template.keys/explain/validate iterate the same key source as evaluate resolves, skip exactly the :param: "
               "keys, delegate every other key to Option(key).<same op> (transitivity), and visit all params; Option.keys/explain "
               "inspect every container kind whose embedded references resolve() follows; KeyError translations are chained."
               " Collecting functions keep no keyword of their own (a lifted parameter called `name` is still lifted); no thread-local walk state survives a failed keys()."
-              " A dataset derived with with_options / with_default_options and used as a {:name:} parameter is evaluated under the options given, with the stored pre-set dictionary (not the default one) mixed in; an interface member declared as `name: T = <dataset>` keeps that default implementation (no abstract member is declared over it)." " WithOptions asks the wrapped object to explain / key itself under the mixed options (the values the wrapper supplies may be templated and refer to further keys)." " The log request of a dataset used as a template parameter carries its message as it is (a message run through option-placeholder formatting fails for an absent key that evaluation never reads)." " (Round 9) A template parameter that is an interface member evaluates to the registered implementation only if the member of every interface was collected for registration (R-RG, _get_members).",
+              " A dataset derived with with_options / with_default_options and used as a {:name:} parameter is evaluated under the options given, with the stored pre-set dictionary (not the default one) mixed in; an interface member declared as `name: T = <dataset>` keeps that default implementation (no abstract member is declared over it)." " WithOptions asks the wrapped object to explain / key itself under the mixed options (the values the wrapper supplies may be templated and refer to further keys)." " The log request of a dataset used as a template parameter carries its message as it is (a message run through option-placeholder formatting fails for an absent key that evaluation never reads)." " (Round 9) A template parameter that is an interface member evaluates to the registered implementation only if the member of every interface was collected for registration (R-RG, _get_members)." " (Round 10) explain() of a Template hands the caller's options on to its parameters, as evaluate does (R-OA on Template).",
               "the substituted text",
-              filters={"R-RG": ["_get_members"], "R-L1": ["request carries"], "R-MX": ["with_options", "with_default_options", "WithOptions.explain", "WithOptions.keys"], "R-ID": ["abstract member only"], "R-KC": ["Template", "Option"], "R-CH": ["Template", "Option"], "R-GS": ["labrea.template", "labrea.option"]}),
-    "C10": _p(["R-VA", "R-KC", "R-OA", "R-CP", "R-EV", "R-SL", "R-OP", "R-SH", "R-WI", "R-MF", "R-VO", "R-RK", "R-TK", "R-L1", "R-OF", "R-LB", "R-SO", "R-VP", "R-KW"],
+              filters={"R-OA": ["labrea.template.Template:"], "R-RG": ["_get_members"], "R-L1": ["request carries"], "R-MX": ["with_options", "with_default_options", "WithOptions.explain", "WithOptions.keys"], "R-ID": ["abstract member only"], "R-KC": ["Template", "Option"], "R-CH": ["Template", "Option"], "R-GS": ["labrea.template", "labrea.option"]}),
+    "C10": _p(["R-VA", "R-KC", "R-OA", "R-CP", "R-EV", "R-SL", "R-OP", "R-SH", "R-WI", "R-MF", "R-VO", "R-RK", "R-TK", "R-L1", "R-OF", "R-LB", "R-SO", "R-VP", "R-KW", "R-DC"],
               "Decides: for every node class, every evaluate path's children are covered by one validate path; the same children are "
               "keyed; the same options form is passed; Cached.validate skips only on exists; inspection evaluates selectors only; "
               "unselected branches are not validated; a child evaluated per element is validated per element; dataset-class "
               "validate/keys/instantiation enumerate the same members; conversely validate consults a child only in situations in which some "
               "evaluate path does (a flag honoured by evaluate but not by validate is reported); Option.keys follows templated values into "
               "every container kind that evaluation resolves."
-              " Template inspection skips exactly the :param: keys; inspection methods do not log; options are handed on unchanged." " The switch an overloaded dataset delegates to is built from the live dispatch, table and default — an abstract dataset has no stand-in default that validates and keys trivially. Coalesce validates a member before every operation on it, evaluate included (Iter and Map evaluate lazily: unvalidated, the lazy result of a member that keys() and validate() reject is returned)." " (Round 9) With caching disabled the stand-in for the presence request answers False: a True makes Cached.validate skip the wrapped expression while evaluate recomputes it (R-VP). A plain function becomes part of the graph through lift — built directly without arguments, validate/keys see no argument while evaluate calls the body with raw Option objects (R-KW).",
+              " Template inspection skips exactly the :param: keys; inspection methods do not log; options are handed on unchanged." " The switch an overloaded dataset delegates to is built from the live dispatch, table and default — an abstract dataset has no stand-in default that validates and keys trivially. Coalesce validates a member before every operation on it, evaluate included (Iter and Map evaluate lazily: unvalidated, the lazy result of a member that keys() and validate() reject is returned)." " (Round 9) With caching disabled the stand-in for the presence request answers False: a True makes Cached.validate skip the wrapped expression while evaluate recomputes it (R-VP). A plain function becomes part of the graph through lift — built directly without arguments, validate/keys see no argument while evaluate calls the body with raw Option objects (R-KW)." " (Round 10) Dataset.validate forwards to the composed expression on every call: a remembered verdict (keyed by a fingerprint that leaves out what effects read) lets validate pass where evaluate fails (R-DC). A dataset class validates and keys the members instantiation evaluates: all Evaluatable attributes found by dir(), inherited and unannotated ones included (R-MF).",
               "agreement for a particular dictionary when it hinges on values",
-              filters={"R-KW": ["built directly", "a variadic parameter"], "R-VP": ["_disabled_exists_cache_handler"], "R-SO": ["Coalesce"], "R-LB": ["switch reads live"], "R-L1": ["inspection does not log"], "R-TK": ["validate", "keys"], "R-CP": ["validate"], "R-OP": [":iterates"], "R-SH": ["labrea.cache."], "R-WI": [":validate:", ":keys:"], "R-MF": ["same member source", "one member enumeration"]}),
+              filters={"R-DC": ["delegates to _composed"], "R-KW": ["built directly", "a variadic parameter"], "R-VP": ["_disabled_exists_cache_handler"], "R-SO": ["Coalesce"], "R-LB": ["switch reads live"], "R-L1": ["inspection does not log"], "R-TK": ["validate", "keys"], "R-CP": ["validate"], "R-OP": [":iterates"], "R-SH": ["labrea.cache."], "R-WI": [":validate:", ":keys:"], "R-MF": ["same member source", "one member enumeration", "members are the Evaluatable"]}),
     "C11": _p(["R-XA", "R-EG", "R-OA", "R-EV", "R-TK", "R-OP", "R-WI", "R-SO", "R-SL", "R-AB", "R-RK", "R-VO", "R-PO", "R-L1", "R-SH", "R-KU", "R-VP"],
               "Decides: every child keyed or validated is explained, path by path for equal selections; every evaluate/validate "
               "reached from an explain method lies inside a try that catches EvaluationError and raises "
@@ -156,9 +156,9 @@ PROPS = {
               "(coalesce, switch), decides presence like keys (not by the value), and covers per-element children; explain consults a child only "
               "where evaluate may; the keys WithOptions hides from explain are exactly those its pre-set dictionary supplies (dotted lookup)."
               " Inspection methods issue no log request (whose handler would read an option explain never lists)."
-              " Computation.explain lists the effect's keys exactly when Computation.validate checks them (effects not disabled); part key sets are combined by union only." " The default handler of an option's type check evaluates nothing it was handed (a configurable type would make validate() depend on keys explain() never lists)." " (Round 9) With caching disabled the presence stand-in answers False; otherwise validate passes while explain lists keys still to be supplied (R-VP).",
+              " Computation.explain lists the effect's keys exactly when Computation.validate checks them (effects not disabled); part key sets are combined by union only." " The default handler of an option's type check evaluates nothing it was handed (a configurable type would make validate() depend on keys explain() never lists)." " (Round 9) With caching disabled the presence stand-in answers False; otherwise validate passes while explain lists keys still to be supplied (R-VP)." " (Round 10) The default of an Option is reached only when the key is absent: a failure while resolving a value that is present is reported, not replaced by the default — explain lists the unresolved reference as missing (R-AB).",
               "the iterative fill-until-valid behaviour on concrete dictionaries",
-              filters={"R-VP": ["_disabled_exists_cache_handler"], "R-SH": ["Computation.explain", "Computation.validate", "type_validation"], "R-L1": ["inspection does not log"], "R-TK": ["explain"], "R-OP": [":iterates"], "R-WI": [":explain:"], "R-SO": ["Coalesce"], "R-SL": [":explain:"], "R-AB": ["explain"], "R-RK": ["explain", "every recognised kind"], "R-VO": [":explain:"], "R-PO": ["WithOptions"]}),
+              filters={"R-VP": ["_disabled_exists_cache_handler"], "R-SH": ["Computation.explain", "Computation.validate", "type_validation"], "R-L1": ["inspection does not log"], "R-TK": ["explain"], "R-OP": [":iterates"], "R-WI": [":explain:"], "R-SO": ["Coalesce"], "R-SL": [":explain:"], "R-AB": ["explain", "Option.evaluate:default consulted"], "R-RK": ["explain", "every recognised kind"], "R-VO": [":explain:"], "R-PO": ["WithOptions"]}),
     "C12": _p(["R-EH", "R-CH", "R-CD", "R-KN", "R-CP", "R-MC", "R-WR", "R-DC", "R-GS", "R-HI", "R-EX", "R-AB", "R-OH", "R-JS", "R-MS", "R-DF"],
               "Decides: the default evaluate handler wraps every exception into EvaluationError(source = this object) chained with "
               "`from`, re-raising its own; all raises inside handlers are chained; only documented fall-through points catch "
@@ -232,19 +232,19 @@ PROPS = {
               "was built from, not on copies derived on the way."
               " No library function enters a runtime of its own (shadowing the user's handlers); expressions are never deep-copied."
               " validate/keys/explain ask their parts to validate/key/explain (an effect whose validate evaluates its callback issues EvaluateRequests where ValidateRequests are due); request records keep each constructor argument in the field of its name."
-              " What an implementation registers on the interface member is its own member object (the dataset the user wrote, so that its requests are issued when the interface dispatches to it)." " Which handler serves a request depends on the handler tables alone: the runtime module keeps no further module-level or per-thread state that could route a request past an installed handler." " The parts of an expression are told apart by identity alone (two Options that print alike, Value(1) == Value(True)): a part collapsed into a look-alike loses its keys, its validation, its requests and its value." " Runtime.run serves every request from the runtime's own handler for its type — nested requests of the same type included." " (Round 9) An expression given as a step parameter is part of the graph only if the helper asks whether it is an Evaluatable (ensure); wrapped as a constant none of its four operations is ever issued (R-HF).",
+              " What an implementation registers on the interface member is its own member object (the dataset the user wrote, so that its requests are issued when the interface dispatches to it)." " Which handler serves a request depends on the handler tables alone: the runtime module keeps no further module-level or per-thread state that could route a request past an installed handler." " The parts of an expression are told apart by identity alone (two Options that print alike, Value(1) == Value(True)): a part collapsed into a look-alike loses its keys, its validation, its requests and its value." " Runtime.run serves every request from the runtime's own handler for its type — nested requests of the same type included." " (Round 9) An expression given as a step parameter is part of the graph only if the helper asks whether it is an Evaluatable (ensure); wrapped as a constant none of its four operations is ever issued (R-HF)." " (Round 10) A pipeline evaluates its prefix pipeline as an expression of its own (one EvaluateRequest per nested pipeline), not flattened into steps (R-EO).",
               "third-party subclasses; that a pass-through handler changes no value",
-              filters={"R-HF": ["is evaluated when it is an expression"], "R-DF": ["looks the handler up by type(request)", "the handler is called outside the try"], "R-LM": ["tells the parts"], "R-GS": ["labrea.runtime"], "R-RG": ["registers the implementation member itself"], "R-MP": ["type request"], "R-HI": ["handle", "disabled", "enters a runtime", "reads the current runtime"], "R-MF": ["set to its evaluation"], "R-EO": ["__call__", "combinator API", "before the function is returned"]}),
-    "C19": _p(["R-DK", "R-MF", "R-KC", "R-VA", "R-XA", "R-WI", "R-EO", "R-KB", "R-LK", "R-TI", "R-MX", "R-RG", "R-VW", "R-OC", "R-CC", "R-MC", "R-RK", "R-PO"],
+              filters={"R-HF": ["is evaluated when it is an expression"], "R-DF": ["looks the handler up by type(request)", "the handler is called outside the try"], "R-LM": ["tells the parts"], "R-GS": ["labrea.runtime"], "R-RG": ["registers the implementation member itself"], "R-MP": ["type request"], "R-HI": ["handle", "disabled", "enters a runtime", "reads the current runtime"], "R-MF": ["set to its evaluation"], "R-EO": ["__call__", "combinator API", "before the function is returned", "Pipeline.evaluate"]}),
+    "C19": _p(["R-DK", "R-MF", "R-KC", "R-VA", "R-XA", "R-WI", "R-EO", "R-KB", "R-LK", "R-TI", "R-MX", "R-RG", "R-VW", "R-OC", "R-CC", "R-MC", "R-RK", "R-PO", "R-OA"],
               "Decides: relevant options are read with dotted accessors; validate/keys/explain/instantiation enumerate members with "
               "the same source and predicate; __eq__ and __repr__ read the recorded relevant options; members are children for key "
               "coverage / validate / explain agreement; no per-class member memo that derived classes inherit; plain members are "
               "handed out as copies."
               " Recorded keys are compared at the dot; lift() lifts keyword-only defaults; inherit() always installs the parent's runtime."
               " A member derived with with_options / with_default_options carries the stored forced dictionary on (members are evaluations under the instance's options); every member of an implemented interface is registered under every alias (the aliases are a collection that can be walked once per member)."
-              " A member that is itself an expression (a dataset class is a type and an expression) is never wrapped as a constant." " Configuring a dataset factory creates no cache: members of a dataset class made by one pre-configured factory each get a cache of their own (a shared one hands a member its sibling's value)." " An interface member rebuilt from an existing dataset keeps its callback (the callback's option keys are part of the dataset class's keys, repr and equality). Members of a dataset class are memoised under their JSON fingerprint: 1, 1.0 and True under one key are three entries, not one." " (Round 9) A dataset class reports the union of its members' keys: a member Option that does not look into a section for templated references (R-RK) or a WithOptions member whose pre-set filter is wrong (R-PO) makes instances compare equal or unequal on the wrong keys.",
+              " A member that is itself an expression (a dataset class is a type and an expression) is never wrapped as a constant." " Configuring a dataset factory creates no cache: members of a dataset class made by one pre-configured factory each get a cache of their own (a shared one hands a member its sibling's value)." " An interface member rebuilt from an existing dataset keeps its callback (the callback's option keys are part of the dataset class's keys, repr and equality). Members of a dataset class are memoised under their JSON fingerprint: 1, 1.0 and True under one key are three entries, not one." " (Round 9) A dataset class reports the union of its members' keys: a member Option that does not look into a section for templated references (R-RK) or a WithOptions member whose pre-set filter is wrong (R-PO) makes instances compare equal or unequal on the wrong keys." " (Round 10) The class's explain is the union over its members under the same options (R-OA on the metaclass).",
               "instance attribute values",
-              filters={"R-PO": ["pre-set keys filtered"], "R-RK": ["_template_keys"], "R-MC": ["key-is-fingerprint"], "R-CC": ["Dataset(...) rebuilt"], "R-OC": ["creates no cache"], "R-MX": ["with_options", "with_default_options"], "R-RG": ["walked once per member", "every member registered"], "R-KC": ["_DatasetClassMeta"], "R-VA": ["_DatasetClassMeta"], "R-XA": ["_DatasetClassMeta"], "R-DK": ["datasetclass"],
+              filters={"R-OA": ["_DatasetClassMeta:"], "R-PO": ["pre-set keys filtered"], "R-RK": ["_template_keys"], "R-MC": ["key-is-fingerprint"], "R-CC": ["Dataset(...) rebuilt"], "R-OC": ["creates no cache"], "R-MX": ["with_options", "with_default_options"], "R-RG": ["walked once per member", "every member registered"], "R-KC": ["_DatasetClassMeta"], "R-VA": ["_DatasetClassMeta"], "R-XA": ["_DatasetClassMeta"], "R-DK": ["datasetclass"],
                        "R-WI": ["_DatasetClassMeta"], "R-EO": ["Value.evaluate"]}),
     "C20": _p(["R-PL", "R-PF", "R-GA", "R-PK", "R-IS", "R-TV", "R-FP"],
               "Decides necessary conditions of picklability: every class holding a lock drops it in __getstate__ and re-creates it in "
